@@ -21,7 +21,8 @@ def pwl_items(tier):
     for cyclic in (False, True):
       if cyclic and len(kp) < 3:
         continue
-      for missing in ("none", "value-learned", "value-fixed", "tensor-learned", "tensor-fixed"):
+      for missing in ("none", "value-learned", "value-fixed", "tensor-learned", "tensor-fixed",
+                      "value-fixed0", "tensor-fixed0"):
         for layout in ("basis-shared", "words-shared", "perunit"):
           for split in (False, True):
             if split and layout != "perunit":
@@ -42,6 +43,8 @@ def _build_pwl(kp, units, cyclic, missing, split, learned=False):
       kw["missing_input_value"] = float(kp[1])  # a value inside the range (a keypoint!)
     if missing.endswith("fixed"):
       kw["missing_output_value"] = -7.25
+    if missing.endswith("fixed0"):
+      kw["missing_output_value"] = 0.0   # falsy values must behave like any other value
   layer = tfl.layers.PWLCalibration(
       input_keypoints=np.array(kp, dtype=np.float32), units=units, is_cyclic=cyclic,
       split_outputs=split, input_keypoints_type="learned_interior" if learned else "fixed",
@@ -103,7 +106,7 @@ def pwl_case(item, ctx=None):
     ref[:, u] = rp.evaluate(kp, K[:, u], xu, cyclic)
     mm = miss_mask[:, u] if miss_mask.shape[1] > 1 else miss_mask[:, 0]
     if missing != "none":
-      mo = -7.25 if missing.endswith("fixed") else 9.5 + u
+      mo = -7.25 if missing.endswith("fixed") else 0.0 if missing.endswith("fixed0") else 9.5 + u
       ref[mm, u] = mo
   scale = np.maximum(1.0, np.abs(ref))
   err = np.abs(out - ref) / scale
@@ -189,7 +192,7 @@ def cat_items(tier):
   items = []
   for nb in (2, 3, 4):
     for units in (1, 2, 3):
-      for default in (None, -1, 7):
+      for default in (None, -1, 7, 0):
         for layout in ("shared", "perunit"):
           if units == 1 and layout == "perunit":
             continue
